@@ -53,23 +53,32 @@ def alloc_window(ops, kind):
     """Ordinals (statement indices) of the allocation write proper: from the
     first statement on ``allocations`` inside the write transaction up to
     the end of that transaction (for the reshaper: up to the first later
-    statement on ``inventories``)."""
+    statement on ``inventories``).
+
+    Returns (window, tail): ``tail`` is the part of the window after the
+    first ``DELETE FROM consumers`` - the removal of emptied consumers that
+    ends the allocation write proper; what follows (compare-and-swap and
+    removal of consumers the write did not visit) belongs to the same
+    transaction but is a separate step."""
     if kind not in ALLOC_KINDS:
-        return set()
+        return set(), set()
     out = set()
+    tail = set()
     k = -1
-    in_txn_with_delete = False
     started = False
+    in_tail = False
     for (t, verb, table) in ops:
         if t == 'B':
             if verb == 'top':
                 started = False
+                in_tail = False
             continue
         if t == 'R':
             continue
         k += 1
         if t == 'C':
             started = False
+            in_tail = False
             continue
         if not started and verb == 'DELETE' and table == 'allocations':
             started = True
@@ -77,7 +86,11 @@ def alloc_window(ops, kind):
             started = False
         if started:
             out.add(k)
-    return out
+            if in_tail:
+                tail.add(k)
+            if verb == 'DELETE' and table == 'consumers':
+                in_tail = True
+    return out, tail
 
 
 def cleanup_window(ops):
@@ -126,7 +139,8 @@ class FaultRun(object):
 
     def __init__(self, world, seed, mode, knobs=None, setup_ops=None,
                  request=None, plan=None, exhaustive=True, max_points=None,
-                 pairs=0):
+                 pairs=0, variant=None):
+        self.variant = variant
         self.world = world
         self.seed = seed
         self.mode = mode            # 'fault' | 'crash'
@@ -182,14 +196,25 @@ class FaultRun(object):
                 self.setup_ops.append(workload.op_brief(op))
             return True
         rng = self.rng
-        self.gen = workload.Gen(
-            rng, n_providers=rng.choice([2, 3, 4]),
-            n_consumers=rng.choice([2, 3, 4]), invalid_rate=0.05,
-            max_total=rng.choice([4, 8, 12]),
-            mix=dict(workload.DEFAULT_MIX, read=0, rp_delete=1, alloc_put=14,
-                     alloc_post=6, inv_put_all=10, rp_create=10, agg_put=4,
-                     trait_put=3, rc_put=2, rc_rename=0))
-        for i in range(rng.randint(2, 12)):
+        if self.variant == 'tree':
+            # provider forests: the request will move or remove a subtree
+            self.gen = workload.Gen(
+                rng, n_providers=rng.choice([5, 6, 8]), n_consumers=2,
+                invalid_rate=0.0, max_total=8,
+                mix={'rp_create': 20, 'rp_update': 6, 'inv_post': 2,
+                     'alloc_put': 2, 'rpt_put': 1, 'agg_put': 1})
+            n_setup = rng.randint(6, 16)
+        else:
+            self.gen = workload.Gen(
+                rng, n_providers=rng.choice([2, 3, 4]),
+                n_consumers=rng.choice([2, 3, 4]), invalid_rate=0.05,
+                max_total=rng.choice([4, 8, 12]),
+                mix=dict(workload.DEFAULT_MIX, read=0, rp_delete=1,
+                         alloc_put=14, alloc_post=6, inv_put_all=10,
+                         rp_create=10, agg_put=4, trait_put=3, rc_put=2,
+                         rc_rename=0))
+            n_setup = rng.randint(2, 12)
+        for i in range(n_setup):
             op = self.gen.next_op(self.model)
             pre = self.model.clone()
             exp = self.model.apply(op)
@@ -203,6 +228,30 @@ class FaultRun(object):
 
     def gen_request(self):
         g = self.gen
+        if self.variant == 'tree':
+            g.invalid_rate = 0.0
+            m = self.model
+            best = None
+            for _ in range(30):
+                op = g.g_rp_update(m)
+                if op is None:
+                    continue
+                op.setdefault('kind', 'rp_update')
+                u = op['p'].split('/')[2]
+                moves = (op.get('note') in ('reparent', 'unparent') and
+                         u in m.providers and
+                         M.ver(op['v']) >= (1, 14) and
+                         op['b'].get('parent_provider_uuid', 0) !=
+                         m.providers[u]['parent'])
+                if moves and len(m.subtree(u)) >= 2 and \
+                        M.ver(op['v']) >= (1, 37):
+                    return op
+                if moves and best is None:
+                    best = op
+            if best is not None and self.rng.random() < 0.7:
+                return best
+            g.mix = {'rp_update': 5, 'rp_delete': 3, 'rp_create': 2}
+            return g.next_op(m)
         g.mix = dict(WRITE_MIX)
         g.invalid_rate = 0.1
         op = g.next_op(self.model)
@@ -246,8 +295,9 @@ class FaultRun(object):
             k += 1
             ordinals.append((k, tt, verb, table))
         self.ordinals = ordinals
-        self.win_alloc = alloc_window(t.ops, kind) \
-            if self.twin_status < 400 else set()
+        self.win_alloc, self.win_tail = alloc_window(t.ops, kind)
+        if self.twin_status >= 400:
+            self.win_alloc, self.win_tail = set(), set()
         self.win_dup = dupkey_window(t.ops, kind)
         self.win_cleanup = cleanup_window(t.ops)
         w.restore(self.snap0)
@@ -351,7 +401,8 @@ class FaultRun(object):
         in_alloc = k0 in self.win_alloc
         in_dup = k0 in self.win_dup
         single = len(plan) == 1 or len(fired) == 1
-        pos = 'alloc-window' if in_alloc else (
+        pos = ('alloc-tail' if k0 in self.win_tail else 'alloc-window') \
+            if in_alloc else (
             'aggregate-insert' if in_dup else (
                 'consumer-cleanup' if k0 in self.win_cleanup
                 else 'elsewhere'))
